@@ -202,7 +202,8 @@ type c12Keys struct {
 func c12Fingerprint(pub crypto.PublicKey) string {
 	fp, err := getKeyFingerprint(pub)
 	if err != nil {
-		panic(err)
+		// a key x/crypto/ssh cannot marshal has no fingerprint (and no kid)
+		return fmt.Sprintf("no-fingerprint:%T:%p", pub, pub)
 	}
 	return fp
 }
@@ -939,6 +940,33 @@ func TestVerif_C12(t *testing.T) {
 			res.bump(fmt.Sprintf("site:%s:authorize:%d", sp.name, a.status))
 		}
 		siteRuns = append(siteRuns, sr)
+	}
+	// outside the model: an ECDSA signer on a curve neither x/crypto/ssh nor go-jose supports.  The
+	// daemon starts; whatever it releases must still verify under its JWKS (it releases nothing:
+	// every signing path answers 500).
+	{
+		sp := &c12Spec{name: "P-224", signer: ecKey(elliptic.P224()), ed: edKey()}
+		obs := map[string]interface{}{"started": false}
+		if sp.tryLoad(t) {
+			penv := sp.start(t)
+			ps := &c12Site{name: sp.name, suffix: "_p224", env: penv, spec: sp, keys: sp.keys(), jwks: penv.c12FetchJWKS(t), issuer: penv.state.idpGetIssuer(), sid: penv.signerKeyID()}
+			ps.fetchDiscovery(t)
+			obs = map[string]interface{}{"started": true, "keymaster_public_keys": len(penv.state.KeymasterPublicKeys), "jwks_keys": len(ps.jwks.set.Keys)}
+			// no session cookie can be signed, so nobody gets as far as the authorization step
+			if _, err := penv.state.setNewAuthCookie(nil, "alice", AuthTypePassword); err != nil {
+				obs["session_cookie_error"] = err.Error()
+			} else {
+				a := x.runAuthz(ps, "base", "GET", c12BaseQ())
+				obs["authorize_status"], obs["code_issued"] = a.status, a.tok != nil
+				if a.tok != nil {
+					pcodes := make([]*c12Code, 3*5*6)
+					pcodes[(0*5+4)*6+0] = &c12Code{tok: a.tok, client: c04ClientA, user: "alice", minted: a.t0 / 1e9, chal: 4}
+					_, prel, _, _, _ := x.runProduct(ps, c12Dims{[]int{0}, []int{0}, []int{2}, []int{4}, []int{0}, []int{0}, []int{0, 1}}, pcodes)
+					obs["released"] = len(prel)
+				}
+			}
+		}
+		res.Extra["unsupported_curve_signer"] = obs
 	}
 	// key files the daemon must refuse to start with
 	_, edPriv, _ := ed25519.GenerateKey(rand.Reader)
